@@ -143,7 +143,7 @@ def c03_env(b):
 def c03_plan(tier, seed):
     out = []
     for v, nb in (("os-debug", 10), ("memfd-debug", 2), ("inproc-debug", 4)):
-        for j in jobs(v, "c03", nb if tier == "quick" else nb * 3, c03_env, {"cases": 45 if tier == "quick" else 500}, timeout=1500):
+        for j in jobs(v, "c03", nb if tier == "quick" else nb * 3, c03_env, {"cases": 100 if tier == "quick" else 800}, timeout=1500):
             out.append(j)
     out += c03_race_jobs(tier)
     return out
@@ -188,9 +188,9 @@ def c04_env(b):
 def c04_plan(tier, seed):
     out = []
     q = tier == "quick"
-    out += jobs("os-debug", "c04", 10 if q else 24, c04_env, {"cases": 30 if q else 500}, timeout=1500)
-    out += jobs("memfd-debug", "c04", 2 if q else 6, c04_env, {"cases": 30 if q else 500}, timeout=1500)
-    out += jobs("inproc-debug", "c04", 3 if q else 6, None, {"cases": 40 if q else 500}, timeout=1500)
+    out += jobs("os-debug", "c04", 10 if q else 24, c04_env, {"cases": 150 if q else 1200}, timeout=3000)
+    out += jobs("memfd-debug", "c04", 2 if q else 6, c04_env, {"cases": 150 if q else 1200}, timeout=3000)
+    out += jobs("inproc-debug", "c04", 3 if q else 6, None, {"cases": 150 if q else 1200}, timeout=3000)
     return out
 
 
@@ -214,7 +214,7 @@ def c05_plan(tier, seed):
     q = tier == "quick"
     out = []
     for v, nb in (("os-debug", 6), ("memfd-debug", 5), ("inproc-debug", 3)):
-        out += jobs(v, "c05", nb if q else nb * 3, None, {"cases": 40 if q else 500}, timeout=1500)
+        out += jobs(v, "c05", nb if q else nb * 3, None, {"cases": 200 if q else 1500}, timeout=3000)
     return out
 
 
@@ -244,8 +244,8 @@ def c06_env(b):
 
 def c06_plan(tier, seed):
     q = tier == "quick"
-    out = jobs("os-debug", "c06", 12 if q else 32, c06_env, {"cases": 12 if q else 150}, timeout=1800)
-    out += jobs("inproc-debug", "c06", 3 if q else 8, None, {"cases": 12 if q else 150}, timeout=1800)
+    out = jobs("os-debug", "c06", 12 if q else 32, c06_env, {"cases": 30 if q else 250}, timeout=3000)
+    out += jobs("inproc-debug", "c06", 3 if q else 8, None, {"cases": 30 if q else 250}, timeout=3000)
     out += [j for j in c03_race_jobs(tier, modes=(1,), per_mode=2) if j["variant"] != "inproc-debug"]
     return out
 
@@ -288,12 +288,12 @@ def c07_env(b):
 
 def c07_plan(tier, seed):
     q = tier == "quick"
-    out = jobs("os-debug", "c07", 12 if q else 32, c07_env, {"cases": 14 if q else 200}, timeout=1800)
+    out = jobs("os-debug", "c07", 12 if q else 32, c07_env, {"cases": 40 if q else 300}, timeout=3000)
     g = jobs("os-debug", "c07", 14 if q else 34, c07_env, {"cases": 10 if q else 100, "global": 1}, timeout=1800)
     out += g[-2:]
     sw = jobs("os-debug", "c07", 40, None, {"cases": 1200 if q else 6000, "small": 1}, timeout=3000)
     out += sw[30:35] if q else sw[20:36]
-    out += jobs("inproc-debug", "c07", 2 if q else 6, None, {"cases": 14 if q else 200}, timeout=1800)
+    out += jobs("inproc-debug", "c07", 2 if q else 6, None, {"cases": 40 if q else 300}, timeout=3000)
     return out
 
 
@@ -323,8 +323,8 @@ def c08_env(b):
 
 def c08_plan(tier, seed):
     q = tier == "quick"
-    out = jobs("os-debug", "c08", 10 if q else 28, c08_env, {"cases": 10 if q else 120}, timeout=1800)
-    out += jobs("inproc-debug", "c08", 2 if q else 4, None, {"cases": 10 if q else 120}, timeout=1800)
+    out = jobs("os-debug", "c08", 10 if q else 28, c08_env, {"cases": 40 if q else 250}, timeout=3000)
+    out += jobs("inproc-debug", "c08", 2 if q else 4, None, {"cases": 40 if q else 250}, timeout=3000)
     return out
 
 
@@ -359,8 +359,8 @@ def c09_env(b):
 
 def c09_plan(tier, seed):
     q = tier == "quick"
-    out = jobs("os-debug", "c09", 12 if q else 32, c09_env, {"cases": 60 if q else 900}, timeout=1800)
-    out += jobs("inproc-debug", "c09", 3 if q else 6, None, {"cases": 60 if q else 900}, timeout=1800)
+    out = jobs("os-debug", "c09", 12 if q else 32, c09_env, {"cases": 300 if q else 2000}, timeout=3000)
+    out += jobs("inproc-debug", "c09", 3 if q else 6, None, {"cases": 300 if q else 2000}, timeout=3000)
     return out
 
 
@@ -386,8 +386,8 @@ def c10_env(b):
 
 def c10_plan(tier, seed):
     q = tier == "quick"
-    out = jobs("os-debug", "c10", 13 if q else 32, c10_env, {"cases": 40 if q else 400}, timeout=2400)
-    out += jobs("inproc-debug", "c10", 3 if q else 8, None, {"cases": 40 if q else 400}, timeout=2400)
+    out = jobs("os-debug", "c10", 13 if q else 32, c10_env, {"cases": 80 if q else 500}, timeout=3000)
+    out += jobs("inproc-debug", "c10", 3 if q else 8, None, {"cases": 80 if q else 500}, timeout=3000)
     return out
 
 
@@ -429,7 +429,7 @@ def c12_env(b):
 
 def c12_plan(tier, seed):
     q = tier == "quick"
-    out = jobs("os-debug", "c12", 16, c12_env, {"max_packets": 3 if q else 6}, timeout=3000)
+    out = jobs("os-debug", "c12", 16, c12_env, {"max_packets": 4 if q else 6}, timeout=3000)
     if not q:
         out += jobs("os-release", "c12", 16, c12_env, {"max_packets": 4}, timeout=3000)
     return out
@@ -438,7 +438,7 @@ def c12_plan(tier, seed):
 def c12_require(agg):
     st = agg["stats"]
     need = []
-    for k, n in (("crash_mid-send", 100), ("crash_before-send", 20), ("crash_after-send", 20), ("runs_with_partial_message", 50), ("shapes", 48)):
+    for k, n in (("crash_mid-send", 100), ("crash_before-send", 20), ("crash_after-send", 20), ("runs_with_partial_message", 50), ("shapes", 64)):
         if st.get(k, 0) < n:
             need.append("%s < %d" % (k, n))
     return need
@@ -449,7 +449,7 @@ def c12_require(agg):
 def c13_plan(tier, seed):
     out = []
     for sb in (8192, 16387):
-        out += jobs("os-debug", "c13", 10, lambda b, sb=sb: {"IPCMON_SNDBUF": sb, "IPCMON_POISON": "1"}, timeout=3000)
+        out += jobs("os-debug", "c13", 10, lambda b, sb=sb: {"IPCMON_SNDBUF": sb, "IPCMON_POISON": "1"}, {"all": 1}, timeout=3000)
     return out
 
 
@@ -469,9 +469,9 @@ def c13_require(agg):
 
 def c14_plan(tier, seed):
     q = tier == "quick"
-    out = jobs("os-debug", "c14", 8 if q else 16, None, {"cases": 300 if q else 4000}, timeout=3000)
-    out += jobs("os-release", "c14", 2 if q else 6, None, {"cases": 300 if q else 4000}, timeout=3000)
-    out += jobs("inproc-debug", "c14", 3 if q else 6, None, {"cases": 300 if q else 4000}, timeout=3000)
+    out = jobs("os-debug", "c14", 8 if q else 16, None, {"cases": 1500 if q else 10000}, timeout=3000)
+    out += jobs("os-release", "c14", 2 if q else 6, None, {"cases": 1500 if q else 10000}, timeout=3000)
+    out += jobs("inproc-debug", "c14", 3 if q else 6, None, {"cases": 1500 if q else 10000}, timeout=3000)
     return out
 
 
@@ -483,8 +483,8 @@ def c14_require(agg):
 # ------------------------------------------------------------------ C15
 
 def c15_plan(tier, seed):
-    out = jobs("os-debug", "c15", 10, lambda b: {"IPCMON_SNDBUF": 8192}, timeout=3000)
-    out += jobs("os-release", "c15", 10, lambda b: {"IPCMON_SNDBUF": 16384}, timeout=3000)[:3 if tier == "quick" else 10]
+    out = jobs("os-debug", "c15", 10, lambda b: {"IPCMON_SNDBUF": 8192}, {"all": 1}, timeout=3000)
+    out += jobs("os-release", "c15", 10, lambda b: {"IPCMON_SNDBUF": 16384}, {"all": 1}, timeout=3000)[:3 if tier == "quick" else 10]
     out += jobs("inproc-debug", "c15", 5, None, timeout=3000)[:2 if tier == "quick" else 5]
     return out
 
@@ -501,9 +501,9 @@ def c15_require(agg):
 
 def c16_plan(tier, seed):
     q = tier == "quick"
-    out = jobs("os-debug", "c16", 10 if q else 20, None, {"cases": 400 if q else 8000}, timeout=3000)
-    out += jobs("os-release", "c16", 5 if q else 10, None, {"cases": 400 if q else 8000}, timeout=3000)
-    out += jobs("memfd-debug", "c16", 1 if q else 4, None, {"cases": 400 if q else 8000}, timeout=3000)
+    out = jobs("os-debug", "c16", 10 if q else 20, None, {"cases": 2000 if q else 15000}, timeout=3000)
+    out += jobs("os-release", "c16", 5 if q else 10, None, {"cases": 2000 if q else 15000}, timeout=3000)
+    out += jobs("memfd-debug", "c16", 1 if q else 4, None, {"cases": 2000 if q else 15000}, timeout=3000)
     return out
 
 
@@ -531,8 +531,8 @@ def c17_env(b):
 
 def c17_plan(tier, seed):
     q = tier == "quick"
-    out = jobs("os-debug", "c17", 12 if q else 28, c17_env, {"cases": 30 if q else 350}, timeout=3000)
-    out += jobs("inproc-debug", "c17", 3 if q else 6, None, {"cases": 30 if q else 350}, timeout=3000)
+    out = jobs("os-debug", "c17", 12 if q else 28, c17_env, {"cases": 60 if q else 400}, timeout=3000)
+    out += jobs("inproc-debug", "c17", 3 if q else 6, None, {"cases": 60 if q else 400}, timeout=3000)
     return out
 
 
@@ -629,7 +629,7 @@ def c20_env(b):
 
 def c20_plan(tier, seed):
     q = tier == "quick"
-    return jobs("async-debug", "c20", 14 if q else 32, c20_env, {"cases": 16 if q else 250}, timeout=3000)
+    return jobs("async-debug", "c20", 14 if q else 32, c20_env, {"cases": 40 if q else 300}, timeout=3000)
 
 
 def c20_require(agg):
@@ -650,7 +650,7 @@ def c19_plan(tier, seed):
     out = []
     nb = 5 if tier == "quick" else 15
     for v in ("os-debug", "memfd-debug", "inproc-debug"):
-        for j in jobs(v, "c19", nb, None, {"programs": 140 if tier == "quick" else 2200}, timeout=1500):
+        for j in jobs(v, "c19", nb, None, {"programs": 600 if tier == "quick" else 4000}, timeout=1500):
             out.append(j)
     if tier != "quick":
         out += miri_jobs([("c19", 8, {"programs": 6})])
@@ -767,8 +767,8 @@ PROPS = {
         "plan": c15_plan,
         "require": c15_require,
         "level": "exploration",
-        "exhaustive_tiers": ["thorough"],
-        "level_text": "Sweep: attachment counts 0..300 (thorough: every count; quick: every count 0..80, then steps of 16 plus 252..255) x mixtures {senders, receivers, "
+        "exhaustive": True,
+        "level_text": "Sweep: attachment counts 0..300 (every count, in both tiers) x mixtures {senders, receivers, "
                       "regions, mixed} x data {empty, small, exactly one packet, one byte over, multi-packet}. A refused send must leave the channel usable and retain "
                       "nothing; an accepted send must be received (watched by the logical hang rule) with every attachment identity-probed in position. The grid is "
                       "finite and run completely in the thorough tier.",
@@ -796,11 +796,10 @@ PROPS = {
         "plan": c13_plan,
         "require": c13_require,
         "level": "fault_enumeration",
-        "exhaustive": False,
-        "exhaustive_tiers": ["thorough"],
+        "exhaustive": True,
         "level_text": "Fault enumeration: ENOBUFS is injected at the libc boundary on bit patterns over the first 10 transmission attempts of one send, for message shapes "
-                      "{<=2000 B, one packet >2000 B, 2, 3, 6 packets} x {no attachments, 3 senders + 3 regions} x two reported send-buffer sizes. Thorough runs all 1024 "
-                      "patterns per cell (20480 sends, exhaustive inside the grid); quick runs every single and double fault plus 100 seeded patterns per cell. "
+                      "{<=2000 B, one packet >2000 B, 2, 3, 6 packets} x {no attachments, 3 senders + 3 regions} x two reported send-buffer sizes. Both tiers run all 1024 "
+                      "patterns per cell (20480 sends, exhaustive inside the grid). "
                       "Success must deliver exactly the message with probed attachments; failure must not deliver an altered, short or duplicated message; a "
                       "follow-on message must arrive in both cases; no packet may be received truncated (MSG_TRUNC/MSG_CTRUNC).",
         "level_note": "Injected ENOBUFS replaces the real transmission attempt (nothing is sent), which is what the kernel does when it cannot allocate the buffer. "
